@@ -1031,6 +1031,9 @@ class Config:  # pylint: disable=too-many-instance-attributes
         :param key: field key
         :param value: field default value
         """
+        if isinstance(value, Config) and not value._key:
+            # a config type instance does not know the key it is stored under
+            value._key = key
         self._data[key] = value
         self._default_value_keys.add(key)
 
